@@ -587,6 +587,21 @@ theorem cbOut_clean (c : SCfg) (s : SState) (sc att t : Nat) (hs : s.dis = [])
     exact ⟨hp, e, he, h1, h2⟩
   · simp [SState.note, hs] at hc
 
+/-- an event of a scenario attempt is sent: that attempt — same scenario, same retry counter — is in flight -/
+theorem tx_scen_clean (c : SCfg) (s : SState) (k : ScenKey) (ret : Option Retries) (se : ScenEv) (hs : s.dis = [])
+    (hc : (stepL c s (.tx (.scen k ret se))).dis = []) :
+    ∃ e ∈ s.running, e.key = k ∧ e.ret.map (·.retries) = ret := by
+  cases hf : findRunning ({ ({ s with pos := s.pos + 1 } : SState) with out := s.out ++ [.scen k ret se] } : SState) k ret with
+  | some e =>
+    have hm : e ∈ s.running := mem_of_find?_eq_some hf
+    have hp := find?_some hf
+    simp only [Bool.and_eq_true, beq_iff_eq] at hp
+    exact ⟨e, hm, hp.1, hp.2⟩
+  | none =>
+    exfalso
+    simp only [stepL, hf, Option.isSome_none, Bool.false_eq_true, if_false, SState.note] at hc
+    simp at hc
+
 /-! ### the counts, in words -/
 def isGet2 : Label → Bool | .get2 .. => true | _ => false
 def isIdleContinue : Label → Bool | .idleContinue => true | _ => false
